@@ -880,8 +880,13 @@ func writeEvidence(p *Prop, h *Harness, bi *buildInfo, tier string, seed uint64,
 		},
 	}
 	b, _ := json.MarshalIndent(ev, "", " ")
-	os.MkdirAll(filepath.Join(home, "evidence"), 0755)
-	if err := os.WriteFile(filepath.Join(home, "evidence", p.ID+".json"), b, 0644); err != nil {
+	evdir := filepath.Join(home, "evidence")
+	if repo != "/repo" {
+		// a run against a scratch copy (mutation testing) must not overwrite the committed evidence
+		evdir = filepath.Join(build, "evidence-scratch")
+	}
+	os.MkdirAll(evdir, 0755)
+	if err := os.WriteFile(filepath.Join(evdir, p.ID+".json"), b, 0644); err != nil {
 		infra("%v", err)
 	}
 }
